@@ -86,7 +86,12 @@ def check_variant(r: bytes, expect_valid: bool | None, ctx, rng, label: str) -> 
     case = {"readout": r, "label": label, "expect_valid": expect_valid}
     d, ex = p1_mon.safe(lambda: DataReadout(r))
     if ex is None:
-        judge(d.as_bytes, p1_mon.observe(d), ctx, dict(case, via="direct"), expect_valid, "DataReadout(bytes)")
+        first = p1_mon.observe(d)
+        judge(d.as_bytes, first, ctx, dict(case, via="direct"), expect_valid, "DataReadout(bytes)")
+        # a verdict is a function of the bytes: asking the same object again (as a protocol and then the application do) gives it again
+        again = p1_mon.observe(d)
+        if (again["valid"], again["payload"], again["bytes"]) != (first["valid"], first["payload"], first["bytes"]):
+            ctx.violation("C04:readout-changed-after-return", f"DataReadout(bytes): is_valid / payload answered {first['valid']!r} first and {again['valid']!r} when asked again", dict(case, via="direct"))
     else:
         ctx.count("constructor_raised")
         if expect_valid:
